@@ -1,6 +1,22 @@
 import Tk.Basic
+import Tk.Registry
 namespace TkDrv
 open Tk
+/-- state of one TicksSinceStart item with its branch copies: tick size (ns), shared tick0 and registry, previous tick
+    per branch -/
+structure TS where
+  d : Int
+  tick0 : Int
+  reg : Reg
+  prev : List (Nat × Int)
+  deriving Inhabited
+
+def fmtReg (r : Reg) : String :=
+  let ticks := (r.map (·.1)).eraseDups.mergeSort (· ≤ ·)
+  " ".intercalate (ticks.map fun t => s!"{t}:[{",".intercalate ((regGet r t).map toString)}]")
+
+initialize tsRef : IO.Ref TS ← IO.mkRef ⟨1, 0, [], []⟩
+
 partial def loop (h : IO.FS.Stream) : IO Unit := do
   let line ← h.getLine
   if line.isEmpty then return ()
@@ -8,6 +24,21 @@ partial def loop (h : IO.FS.Stream) : IO Unit := do
   match ws with
   | ["floor", t, d] => IO.println s!"{floorTime t.toInt! d.toInt!}"
   | ["tick", t0, t, d, prev] => IO.println s!"{tickOf t0.toInt! t.toInt! d.toInt! prev.toInt!}"
+  | ["tnew", hours] => tsRef.set ⟨hours.toInt! * 3600000000000, 0, [], [(0, 0)]⟩; IO.println "ok"
+  | ["tfork", src, dst] =>
+    let st ← tsRef.get
+    let p := ((st.prev.find? (·.1 = src.toNat!)).map (·.2)).getD 0
+    tsRef.set { st with prev := (dst.toNat!, p) :: st.prev.filter (·.1 ≠ dst.toNat!) }
+    IO.println "ok"
+  | ["tcons", b, c, np, t, idx] =>
+    let st ← tsRef.get
+    let t := t.toInt!
+    let tick0 := if idx.toNat! = 0 then floorTime t st.d else st.tick0
+    let p := ((st.prev.find? (·.1 = b.toNat!)).map (·.2)).getD 0
+    let tick := tickOf tick0 t st.d p
+    let reg := record st.reg tick c.toNat! np.toNat!
+    tsRef.set ⟨st.d, tick0, reg, (b.toNat!, tick) :: st.prev.filter (·.1 ≠ b.toNat!)⟩
+    IO.println s!"{tick} | {fmtReg reg}"
   | _ => IO.println "bad-op"
   loop h
 def main : IO Unit := do loop (← IO.getStdin)
